@@ -59,7 +59,7 @@ func c15Seq(idx int) []string {
 
 func c15Gen(tier string) int {
 	if tier == "thorough" {
-		return 4000 // x50 queries
+		return 20000 // x50 queries
 	}
 	return 200
 }
@@ -351,6 +351,7 @@ func c15Eval(c *fw.Ctx, qs string, d c15Docs, docSel []int, kind string) {
 func init() {
 	fw.Register(&fw.Prop{
 		ID:       "C15",
+		CaseCPU:  20,
 		Title:    "Queries never crash: parse and evaluate return a value or an error",
 		NeedsCLI: true,
 		Cases: func(tier string, seed uint64) int {
